@@ -108,7 +108,7 @@ def _split(test, env):
     return [([(t, True)], True), ([(t, False)], False)]
 
 
-def summaries(fn, max_paths=2048, params_env=None):
+def summaries(fn, max_paths=2048, params_env=None, try_prefixes=False):
     out = []
 
     def run(stmts, conds, env, effects, k, retk=None):
@@ -235,6 +235,21 @@ def summaries(fn, max_paths=2048, params_env=None):
             return
         if isinstance(s, ast.Assert):
             return run(rest, conds, env, effects, k, retk)
+        if isinstance(s, ast.Try) and try_prefixes and not s.finalbody:
+            # normal completion of the body (then orelse), or an exception
+            # after any prefix of the body's statements, caught by each
+            # handler in turn (which exception is raised where is not
+            # decided: every prefix x every handler is a path)
+            run(list(s.body) + list(s.orelse) + list(rest), conds, env,
+                effects, k, retk)
+            for i in range(len(s.body)):
+                for h in s.handlers:
+                    mark = ast.Name("<%s raised in try@%s>" % (
+                        unparse(h.type) if h.type is not None else
+                        "exception", getattr(s, "lineno", "?")), ast.Load())
+                    run(list(s.body[:i]) + list(h.body) + list(rest),
+                        conds + [(mark, True)], env, effects, k, retk)
+            return
         raise Unsupported("%s: statement %s at line %s is outside the "
                           "loop-free subset" % (fn.name, type(s).__name__,
                                                 getattr(s, "lineno", "?")))
